@@ -96,7 +96,6 @@ def secret_code(n, rank, variant):
 
 def glwe_instances():
     out = []
-    n = 2
     shapes = []  # (b, k, ps, bo, ko)
     for b in (12, 17):
         for k in (b, b + 1, 2 * b + 1):
@@ -105,16 +104,19 @@ def glwe_instances():
                 shapes.append((b, k, ps, b, k))
     # output plaintext narrower / of another radix than the ciphertext
     shapes += [(12, 13, 2, 12, 12), (5, 15, 3, 12, 12), (12, 24, 2, 5, 20), (8, 24, 3, 17, 17), (5, 15, 2, 3, 15)]
-    for b, k, ps, bo, ko in shapes:
+    for n in (2, 8):
+      for b, k, ps, bo, ko in shapes:
         size = -(-k // b)
+        if n == 8 and (size > 2 or bo != b):
+            continue
         for rank in (1, 2):
             for variant in (0, 1, 2):
                 sp, sec = secret_code(n, rank, variant)
                 enc, dec = glwe_tmp(n, size)
-                slack = 192
-                symscr = size == 1
+                slack = 192 if n < 8 else 0
+                symscr = size == 1 or n == 8
                 ar = (max(enc, dec) + slack + 7) // 8
-                core = (b, k, ps, bo, ko, rank, variant) in ((12, 12, 1, 12, 12, 1, 0), (17, 35, 3, 17, 35, 2, 0), (5, 15, 3, 12, 12, 1, 0))
+                core = (n, b, k, ps, bo, ko, rank, variant) in ((2, 12, 12, 1, 12, 12, 1, 0), (2, 17, 35, 3, 17, 35, 2, 0), (2, 5, 15, 3, 12, 12, 1, 0), (8, 12, 13, 2, 12, 13, 1, 0))
                 out.append(Instance(crate="hk_core", family="glwe.encrypt_decrypt", name=f"c01_glwe_n{n}_b{b}_k{k}_ps{ps}_o{bo}_{ko}_r{rank}_v{variant}",
                                     call=f"crate::c01_glwe::glwe_roundtrip::<{n}, {b}, {k}, {ps}, {bo}, {ko}, {slack}, {ar}, {bool_rs(symscr)}>({rank}, {sp})", unwind=max(3 * size, 2 * n * (rank + 1), 3 * -(-ko // bo)) + 10,
                                     params={"n": n, "base2k": b, "k": k, "rank": rank, "pt_limbs": ps, "ct_limbs": size, "out_base2k": bo, "out_k": ko, "secret": sec, "scratch_slack_bytes": slack, "scratch_contents": "symbolic" if symscr else "fixed pattern 0x5a"},
@@ -150,7 +152,7 @@ def instances(tier, seed):
 
 
 META = {
-    "bounds": "GLWE secret-key encrypt->decrypt on Module<Probe>: n=2 (size-1 FFT = identity; float leaf kernels replaced by exact integer kernels), rank 1..2, base2k in {12,17}, k in {b,b+1,2b+1}, plaintext with size or size-1 limbs, three concrete ternary secrets, scratch = declared size + 192 bytes; LWE: n_lwe=2; base2k 1..63 for the uniform digit kernel; Gaussian kernels: bound in [1,2^62), 0..2 rejections; error position: base2k in {3,12,17,50,52}, k up to 3 limbs",
+    "bounds": "GLWE secret-key encrypt->decrypt on Module<Probe>: n=2 (size-1 FFT = identity; float leaf kernels replaced by exact integer kernels) and n=8 (ring Z[i]^4: the statement is ring-generic; exact-size symbolic scratch), rank 1..2; glwe_decrypt against an exact negacyclic phase oracle at n=2, ranks 1..3, 11 (ciphertext, plaintext) radix/precision pairs; base2k in {12,17}, k in {b,b+1,2b+1}, plaintext with size or size-1 limbs, three concrete ternary secrets, scratch = declared size + 192 bytes; LWE: n_lwe=2; base2k 1..63 for the uniform digit kernel; Gaussian kernels: bound in [1,2^62), 0..2 rejections; error position: base2k in {3,12,17,50,52}, k up to 3 limbs",
     "outside": "statistics (empirical sigma, uniformity as a frequency), ChaCha8 / ziggurat themselves, seed branching (Source::branch: real ChaCha needs cpuid, unsupported), IEEE rounding of the real f64 kernels and the FFT for n>=4 (C07), public-key / compressed encryption unless listed in the families, ring degrees n>=4 for the end-to-end harnesses",
     "assumptions": ["Source::next_u64n replaced by a stub drawing one arbitrary word (its 4-line body is read, not executed)", "Gaussian draw replaced by an arbitrary f64 through the real generic znx_*_dist_f64_ref; the *_normal_* copies of that loop are covered for position/scale only"],
     "stubs": ["poulpy_hal::source::Source::next_u64n", "znx_fill_normal_f64_ref / znx_add_normal_f64_ref (position harness only)", "f64::exp2 / f64::log2 (exact / constant)", "std::fmt::format", "take_slice_aligned (private, hal_defaults/scratch.rs) replaced by a copy deriving the 64-byte padding from the window offset inside the aligned harness arena instead of the pointer integer (same function on these arenas; the real one is decided by C12 scratch.take_slice*)"],
